@@ -404,7 +404,13 @@ pub fn order_sql(keys: &[OrderKey]) -> String {
                 k.e.sql(),
                 if k.desc { " DESC" } else { " ASC" },
                 match k.nulls_first {
-                    None => "",
+                    None => {
+                        if crate::data::sqlite_dialect() {
+                            " NULLS LAST"
+                        } else {
+                            ""
+                        }
+                    }
                     Some(true) => " NULLS FIRST",
                     Some(false) => " NULLS LAST",
                 }
@@ -597,7 +603,10 @@ impl SetExpr {
                     SetOp::Except => "EXCEPT",
                 };
                 let wrap = |x: &SetExpr| match x {
-                    SetExpr::Op { .. } => format!("({})", x.sql()),
+                    // SQLite rejects parenthesised compound operands; its compound
+                    // operators are left-associative with equal precedence, which is
+                    // exactly the shape of a left-nested tree
+                    SetExpr::Op { .. } if !crate::data::sqlite_dialect() => format!("({})", x.sql()),
                     _ => x.sql(),
                 };
                 format!("{} {}{} {}", wrap(l), o, if *all { " ALL" } else { "" }, wrap(r))
